@@ -107,6 +107,10 @@ func runFileCase(c *core.Case, spec fileCaseSpec) *core.Result {
 		spec.gen(c, &p)
 	}
 	prog := GenProgram(r, p)
+	if p.MaxAllocN > 100 && cfg.MaxPages == 0 {
+		// big transactions: give the simulated device enough room
+		cfg.DiskCap = 32 << 20
+	}
 	w := NewWorld(cfg, spec.mon, r, res)
 	w.TraceOn = c.Verbose
 	var g *gate
